@@ -83,6 +83,22 @@ def impl_parse_name_part(a):
         return [[pre, [] if fc is None else [fc], [] if dl is None else [dl], post], ps.get_remainder()]
     return call_impl(f)
 
+def impl_history(a):
+    """several calls one after the other in ONE process (a cache or any other state kept between calls
+    shows up as a call whose answer depends on the earlier ones)"""
+    # start every history from freshly loaded modules, so that its answers do not depend on what this worker
+    # process (or the shrinker) ran before: a replay in a new process gives the same answers
+    import importlib, pybtex.bibtex.utils, pybtex.bibtex.names, pybtex.bibtex.builtins
+    for m in (pybtex.bibtex.utils, pybtex.bibtex.names, pybtex.bibtex.builtins):
+        importlib.reload(m)
+    out = []
+    for c in a:
+        if c[3]:
+            out.append(impl_builtin([c[0], c[1], c[2]]))
+        else:
+            out.append(impl_format_name([c[0], c[2]]))
+    return out
+
 PERSON = ('T', ('L', 'S'), ('L', 'S'), ('L', 'S'), ('L', 'S'), ('L', 'S'))
 FUNCS = {
     1: ('NameFormat(format).parts', impl_parse, ('T', 'S')),
@@ -95,9 +111,13 @@ FUNCS = {
     8: ('NameFormatParser.TEXT/NON_LETTERS/FORMAT_CHARS.match', impl_match, ('T', 'X', 'S')),
     9: ('NameFormat(format).format over a Person with given part lists', impl_format_person, ('T', 'S', PERSON)),
     10: ('NameFormatParser.parse_name_part', impl_parse_name_part, ('T', 'S')),
+    11: ('history of format_name / format.name$ calls in one process', impl_history, ('L', ('T', 'S', 'I', 'S', 'B'))),
 }
 
 def canon(fn, r):
+    if fn == 11:
+        # every call on its own; the "too many commas" report (memoised built-in, C18) is not compared
+        return [[0, [x[1][0], 0]] if isinstance(x, list) and x[:1] == [0] else canon_res(x) for x in r]
     r = canon_res(r)
     if fn == 3 and isinstance(r, list) and r[:1] == [0]:
         return [0, [r[1][0], 0]]     # the memoised built-in: the "too many commas" report is C18's business
@@ -110,6 +130,8 @@ RULE = ('exhaustive: every format string over {{ }} f v X ~ . 1 _ up to the leng
         'random: names from the C04 generator (von/jr/commas/ties/special characters) x formats from a grammar with all four letters, full and abbreviated, '
         'upper case, pre/post text with nested braces, explicit separators, single/double/triple trailing ties, level-0 text; name lists with index in and out of range. '
         'malformed: single-character corruptions (delete/duplicate/replace/insert) of grammar formats, raw noise, nesting to depth 103. '
+        'history: lists of 3..10 format_name / format.name$ calls executed in order in ONE process on freshly loaded modules (repeated malformed formats, a malformed format '
+        'and its well-formed prefix in both orders, interleaved with valid ones), every answer compared with the model\'s answer for that call alone and checked by the oracle. '
         'distinct = distinct (function, argument); non-trivial = the call succeeded on a format containing a brace group and produced non-empty text.')
 EXHAUSTIVE = {'quick': 'all format strings of length <= 5 over a 9-letter alphabet (parser), length <= 4 x 2 names (format_name); all raw parts x persons from the pools; regexes on all strings of length <= 5 over 10 letters',
               'thorough': 'all format strings of length <= 6 over a 9-letter alphabet (parser), length <= 5 x 2 names (format_name); all raw parts x persons from the pools; all 3-part formats over the shape pool x name pool; regexes on all strings of length <= 6 over 10 letters'}
@@ -135,11 +157,14 @@ def describe(fn, a):
         elif fn == 8: d['pattern'] = ['TEXT', 'NON_LETTERS', 'FORMAT_CHARS'][a[0]]; d['string'] = S(a[1])
         elif fn == 9: d['format'] = S(a[0]); d['person'] = [[S(x) for x in l] for l in a[1]]
         elif fn == 10: d['text'] = S(a[0])
+        elif fn == 11: d['calls'] = [{'names': S(c[0]), 'n': c[1], 'format': S(c[2]), 'via': 'format.name$' if c[3] else 'format_name'} for c in a]
     except Exception:
         d['arg'] = a
     return d
 
 def nontrivial(fn, a, out):
+    if fn == 11:
+        return any(isinstance(x, list) and x[:1] == [1] for x in out) and any(isinstance(x, list) and x[:1] == [0] for x in out)
     if not (isinstance(out, list) and out[:1] == [0]):
         return False
     if fn in (2, 3):
@@ -249,18 +274,57 @@ def text_len(s):
         i += 1
     return n if d == 0 else None
 
-_SIMPLE = re.compile(r"^[A-Za-z0-9.'-]*$")
+def _balanced(s):
+    d = 0
+    for c in s:
+        if c == '{': d += 1
+        elif c == '}':
+            d -= 1
+            if d < 0: return False
+    return d == 0
+
+def _first_letter(piece):
+    """the first letter of a balanced piece: letters count at any brace depth; a special character
+    ({\\ at brace level 0 ... its matching brace) is a letter as a whole"""
+    i = 0; d = 0; L = len(piece)
+    while i < L:
+        c = piece[i]
+        if c == '{':
+            if d == 0 and i + 1 < L and piece[i + 1] == '\\':
+                j = i + 1; dd = 1
+                while j < L and dd > 0:
+                    if piece[j] == '{': dd += 1
+                    elif piece[j] == '}': dd -= 1
+                    j += 1
+                inner = piece[i + 1:j - 1]
+                if len(inner) >= 2:
+                    return piece[i:j]
+                i = j; continue          # "{\\}": a lone backslash is no letter
+            d += 1
+        elif c == '}':
+            d -= 1
+        elif c.isalpha():
+            return c
+        i += 1
+    return ''
+
 def abbreviate(tok, delim):
-    """hyphen-aware abbreviation: first letters of the hyphen-separated pieces"""
-    if _SIMPLE.match(tok):
-        letters = []
-        for piece in tok.split('-'):
-            for c in piece:
-                if c.isalpha():
-                    letters.append(c); break
-        return ('.-' if delim is None else delim).join(letters)
-    from pybtex.bibtex.utils import bibtex_abbreviate      # tokens with braces / TeX: C12's business
-    return bibtex_abbreviate(tok, delim)
+    """hyphen-aware abbreviation: the first letters of the pieces between hyphens AT BRACE LEVEL 0
+    (a hyphen inside braces or inside a special character is ordinary text), joined by the delimiter"""
+    if not _balanced(tok):
+        from pybtex.bibtex.utils import bibtex_abbreviate      # unbalanced tokens: C12's business
+        return bibtex_abbreviate(tok, delim)
+    pieces = []; cur = ''; d = 0
+    for c in tok:
+        if c == '{': d += 1
+        elif c == '}': d -= 1
+        if c == '-' and d == 0:
+            pieces.append(cur); cur = ''
+        else:
+            cur += c
+    pieces.append(cur)
+    letters = [l for l in (_first_letter(p.strip()) for p in pieces) if l]
+    return ('.-' if delim is None else delim).join(letters)
 
 def max_depth(s):
     d = m = 0
@@ -351,6 +415,13 @@ def _oracle_format(fmt, parts_thunk, kind, got, deep):
     return None
 
 def oracle(fn, a, out):
+    if fn == 11:
+        # the property must hold on EVERY call of a process, not only on the first use of a format string
+        for k, (c, o) in enumerate(zip(a, out)):
+            m = oracle(3, [c[0], c[1], c[2]], o) if c[3] else oracle(2, [c[0], c[2]], o)
+            if m:
+                return 'call %d of the history (%s, format %r): %s' % (k, 'format.name$' if c[3] else 'format_name', S(c[2]), m)
+        return None
     if not (isinstance(out, list) and out and out[0] in (0, 1, 2)):
         return None
     if fn == 2:
@@ -393,6 +464,11 @@ def oracle(fn, a, out):
             if lvl0 != got:
                 return 'level-0 text %r parsed as %r' % (lvl0, got)
         return None
+    if fn == 7 and out[0] == 0 and _balanced(S(a[0])) and max_depth(S(a[0])) <= 99:
+        want = abbreviate(S(a[0]), S(a[1][0]) if a[1] else None)
+        if S(out[1]) != want:
+            return 'abbreviated %r as %r, hyphens at brace level 0 only give %r' % (S(a[0]), S(out[1]), want)
+        return None
     if fn == 4 and out[0] == 0:
         words = [S(w) for w in a[0]]; tie, space = S(a[1]), S(a[2])
         want = ''
@@ -413,7 +489,8 @@ def oracle(fn, a, out):
 # ----------------------------------------------------------------------------------------
 # generators
 NAME_TOKS = ['Jean', 'de', 'la', 'von', 'Fontaine', '{Van}', "{\\'E}douard", "{\\'e}x", '1st', '{}', 'Jean-Paul', 'A.~B.', 'jr',
-             '{\\relax van}', '\\LaTeX', "d'Aviano", '{\\a{b}', 'x\\ y', 'q\\~r', 'Xu', 'Li', 'X', 'Phony-Baloney', 'Ch.', 'J.-P.', '-', 'a-', '{A-B}-c', 'Jr.', 'III']
+             '{\\relax van}', '\\LaTeX', "d'Aviano", '{\\a{b}', 'x\\ y', 'q\\~r', 'Xu', 'Li', 'X', 'Phony-Baloney', 'Ch.', 'J.-P.', '-', 'a-', '{A-B}-c', 'Jr.', 'III',
+             '{Hewlett-Packard}', 'Jean{-}Pierre', '{\\relax Jean-Luc}', 'Karl-{Heinz-Otto}', 'M{\\"u}ller-L{\\"u}d', 'J-{K-L}-M', '{der-Waals}']
 NAME_POOL = ['Charles Louis Xavier Joseph de la Vallee Poussin', 'abc', 'Jean-Pierre Hansen', 'F. Phidias Phony-Baloney', 'Donald Knuth',
              'Donald E. Knuth', 'de la Fontaine, Jr, Jean Marie Paul Luc', 'von Berg, Li', "{\\'E}. Li Xu van der Waals Jr", 'A B C D E F', '', 'X',
              'Ab Cd von Ef Gh, Ij Kl, Mn Op Qr', 'a, b, c, d', 'Ludwig van Beethoven', '{von Neumann}, John', 'Xu Li', 'J.-P. Sartre', 'de~la~Rue, Jo~Ann Mary', 'Brinch Hansen, Per']
@@ -468,9 +545,42 @@ PINNED = [
     (2, ['Donald Knuth', '{fl}']), (2, ['Donald Knuth', '{x}']), (2, ['Donald Knuth', '{f_}']), (2, ['Donald Knuth', '{, ~}|']), (2, ['Donald Knuth', '{~}|']),
     (2, ['Donald Knuth', '{f{']), (2, ['Donald Knuth', '{f{x}']), (2, ['a, b, c, d', '{ff}{ll}{jj}']),
     (4, [['a', 'long', 'long', 'road'], '~', ' ']), (4, [['very', 'long', 'phrase'], '~', ' ']),
+    # hyphens protected by braces do not start a new initial (seeded C11f)
+    (2, ['{Hewlett-Packard}, Jean-Pierre', '{f.}{ l.}']), (2, ['{Hewlett-Packard}, Jean-Pierre', '{f{/}}|{l{+}}']),
+    (2, ['Jean{-}Pierre Hansen', '{f.~}{ll}']), (2, ['{\\relax Jean-Luc} Picard', '{f.}{ ll}']),
+    (2, ['Karl-{Heinz-Otto} M{\\"u}ller-L{\\"u}denscheidt', '{f.}{ l.}']), (2, ['van {der-Waals}, Jr-{Sr-X}, J-{K-L}-M', '{f{/}}|{l{+}}|{j{=}}']),
+    (7, ['{Hewlett-Packard}', []]), (7, ['Jean{-}Pierre', []]), (7, ['{\\relax Jean-Luc}', []]), (7, ['Karl-{Heinz-Otto}', ['']]),
 ]
 
-P_TOKS = ['A', 'Bcd', 'Jo-Pi', "{\\'E}f", 'de', 'xy']
+MALFORMED_POOL = ['{ll}{, xx}', '{ff~}{vv~}{ll}{, jj', 'by {ff }{ll ll}', '{ff~}{vv~}{ll}}{, jj}', '{vv~}{ll}{, {jj}', '{ll}, {f.}{ fv}',
+                  '{vv~}{ll}{ ff jj}', 'x}', '{ll}{', '{ll}{f', '{ff}{f_}', 'and {FF}{LLL}']
+WELLFORMED_POOL = ['{ff~}{vv~}{ll}{, jj}', '{vv~}{ll}{, jj}{, f.}', '{ll}', 'by {ff }', '{ll}{, }', '{ff~}{vv~}{ll}', '{ll}, {f.}', 'x', '{ff}', 'and {FF}']
+HIST_NAMES = ['Charles Louis Xavier Joseph de la Vallee Poussin', 'Donald E. Knuth', 'von Berg, Jr, Li', 'abc']
+
+def gen_history(rng):
+    """a list of calls for ONE process: malformed formats repeated, a malformed format and its well-formed prefix
+    in both orders, interleaved with valid ones, through format_name and through the built-in"""
+    calls = []
+    def call(fmt):
+        if rng.random() < 0.5:
+            return [rng.choice(HIST_NAMES), 0, fmt, 0]
+        k = rng.randint(1, 3)
+        names = ' and '.join(rng.choice(HIST_NAMES) for _ in range(k))
+        return [names, rng.choice([1, 1, k, k, k + 1, 0]), fmt, 1]
+    bad = [rng.choice(MALFORMED_POOL) if rng.random() < 0.6 else corrupt(rng, gen_format(rng)) for _ in range(rng.randint(1, 2))]
+    good = [rng.choice(WELLFORMED_POOL) if rng.random() < 0.6 else gen_format(rng) for _ in range(rng.randint(1, 2))]
+    prefixes = []
+    for b in bad:       # well-formed prefixes of the malformed string (what a partially filled cache would hold)
+        for cut in range(len(b), 0, -1):
+            if classify_format(b[:cut])[0] == 'ok':
+                prefixes.append(b[:cut]); break
+    pool = bad * 3 + good * 2 + prefixes * 2
+    for _ in range(rng.randint(4, 10)):
+        calls.append(call(rng.choice(pool)))
+    return calls
+
+
+P_TOKS = ['A', 'Bcd', 'Jo-Pi', "{\\'E}f", 'de', '{x-Y}z']
 def persons(maxtok):
     """persons with 0..maxtok tokens in the part under test (others fixed small)"""
     lists = [[]]
@@ -483,6 +593,17 @@ def gen(tier, rng):
     thorough = tier != 'quick'
     for fn, a in PINNED:
         yield ('pinned', fn, a)
+    # --- histories: several calls in one process, every answer compared with the model's answer for that call alone
+    for b in MALFORMED_POOL:
+        for nm in HIST_NAMES[:2]:
+            yield ('history', 11, [[nm, 0, b, 0], [nm, 0, b, 0], [nm + ' and ' + nm, 2, b, 1], [nm, 0, b, 0], [nm, 1, b, 1]])
+            yield ('history', 11, [[nm, 1, b, 1], [nm, 1, b, 1], [nm, 0, b, 0]])
+    for b, g in [('{ll}{, xx}', '{ll}'), ('{ff~}{vv~}{ll}{, jj', '{ff~}{vv~}{ll}'), ('by {ff }{ll ll}', 'by {ff }'), ('{ll}, {f.}{ fv}', '{ll}, {f.}')]:
+        nm = HIST_NAMES[0]
+        yield ('history', 11, [[nm, 0, g, 0], [nm, 0, b, 0], [nm, 0, g, 0], [nm, 0, b, 0], [nm, 1, b, 1], [nm, 1, g, 1]])
+        yield ('history', 11, [[nm, 0, b, 0], [nm, 0, g, 0], [nm, 0, b, 0], [nm, 0, '{ff~}{vv~}{ll}{, jj}', 0], [nm, 1, b, 1]])
+    for i in range(400 if not thorough else 4000):
+        yield ('history', 11, gen_history(rng))
     # --- (a) exhaustive format strings through the parser and through format_name
     ALPHA = '{}fvX~.1_'
     for n in range(0, (7 if thorough else 6)):
